@@ -1,6 +1,8 @@
 """C04 — one typo in a >=5-letter word still finds the record (necessary constants)."""
 from . import r_gates as RG
 from . import C20 as RC20
+from . import r_join as RJ
+from . import C17 as RC17
 from .common import info
 
 
@@ -23,6 +25,8 @@ def run(ctx):
                 ctx.fail("R04.e", key, where(g.body, g.bi),
                          "prefix pairs differing by one character are skipped (%s): an inserted or deleted letter "
                          "can never match" % g.describe(), {"witness": "title 'bcdfg', query 'bcxdfg'"})
+    RJ.failed_attempt_is_pure(ctx, "R04.f")
+    RC17.chain_rule(ctx, "R04.g")
     RC20.buffer_rules(ctx, None, None, "R20.f")
     return info("Necessary constants for single-typo tolerance at the n=5 worst cases: length gate accepts 1-5/6, "
                 "Jaccard gate accepts 1/2, the DL gate accepts c/5 for every edit-cost constant c, every cost <= 1.0, "
